@@ -351,6 +351,10 @@ func parseBlock(c *casketfile.Dispenser, u *staticUpstream, hasSrv bool) error {
 			args = append(args, c.Val())
 		}
 		u.Policy = policyCreateFunc(args)
+		if _, ok := u.Policy.(*Header); ok && len(args) == 0 {
+			// without a header name the policy never selects a backend
+			return c.ArgErr()
+		}
 	case "fallback_delay":
 		if !c.NextArg() {
 			return c.ArgErr()
